@@ -1,7 +1,11 @@
 package main
 
 import (
+	"fmt"
+	"os"
 	"sort"
+	"sync"
+	"sync/atomic"
 	"time"
 
 	"github.com/protolambda/zrnt/eth2/configs"
@@ -109,12 +113,29 @@ func runC15() {
 		}
 		pn = append(pn, ps.Name)
 	}
-	run.Set("states", st.NonTrivial)
-	run.Set("transitions", st.Evals)
-	run.Set("traces_validated_against_impl", st.NonTrivial)
+	// (c) sibling copies advanced by real transitions (CopyState + Clone like a client)
+	var ist chainh.IndepStats
+	var wg sync.WaitGroup
+	for i, sc := range chainh.Scenarios(run.Tier) {
+		if run.Tier != "thorough" && i != 0 && sc.Name != "deposits/all-forks" && sc.Name != "mass-ejection/all-forks" {
+			continue
+		}
+		wg.Add(1)
+		go func(sc *chainh.Scenario) { // each scenario has its own world: nothing is shared between the goroutines
+			defer wg.Done()
+			chainh.SiblingIndependence(run, sc, &ist)
+			fmt.Fprintf(os.Stderr, "C15 sibling copies %s done: branches=%d checks=%d (cumulative)\n", sc.Name, atomic.LoadInt64(&ist.Branches), atomic.LoadInt64(&ist.Checks))
+		}(sc)
+	}
+	wg.Wait()
+	run.Set("sibling_copy_branches", ist.Branches)
+	run.Set("sibling_copy_checks", ist.Checks)
+	run.Set("states", st.NonTrivial+ist.Checks)
+	run.Set("transitions", st.Evals+ist.Branches)
+	run.Set("traces_validated_against_impl", st.NonTrivial+ist.Branches)
 	run.Set("presets", pn)
 	run.Set("accessors_in_table", len(statex.AllOps()))
-	run.Set("engine", "accessor table x 6 fork state types on the all-leaves-distinct state (each setter: bytes == model edited by field NAME; all getters vs the model) + exhaustive sequences (depth bound) of mutations over {state0, state1 = Copy(state0), state2 = Copy(state1)} with every live state compared with its never-shared twin after every step")
+	run.Set("engine", "accessor table x 6 fork state types on the all-leaves-distinct state (each setter: bytes == model edited by field NAME; all getters vs the model) + exhaustive sequences (depth bound) of mutations over {state0, state1 = Copy(state0), state2 = Copy(state1)} with every live state compared with its never-shared twin after every step; + at every state of the base chain histories: two copies (CopyState + Clone), one advanced by each menu deviation and two epoch transitions, original and sibling re-checked (state bytes, cached root, whole context vs from-scratch), then vice versa")
 	run.Sample(5, map[string]interface{}{"fork": "capella", "steps": []string{"state1.SetSlot", "state2 = Copy(state1)", "state0.Validators[2].SetExitEpoch"}})
 	run.Assume("model = the fork's reference struct (refspec) edited by field name; refssz encodes it", "3 validators, lists of 3, T4 / odd-limits / minimal presets")
 	run.Finish()
